@@ -479,6 +479,8 @@ def execute(mod, rep, cov, cases, tier, rng, verbose=False):
     # with old values ("<fn>~d"); a result that changes means the operation reads or keeps what its output held before
     NONDET = ("live", "_rand", "volume", "selfcheck", "history", "purity", "rng_threads", "verify_race", "search", "sweep", "flips")
     idx = [i for i, c in enumerate(cases) if not any(t in c.fn for t in NONDET)]
+    if dh or rh or nh:
+        idx = []          # a build already hung on these cases (reported below): do not wait for the same hang again
     if len(idx) > 4000:
         idx = sorted(rng.sample(idx, 4000))
     dl = ["%d %s~d %s %s" % (i, cases[i].fn, cases[i].copy, " ".join(cases[i].args)) for i in idx]
